@@ -557,6 +557,23 @@ def r10_security_parameters(chk: Check) -> None:
         chk.decide(None if got_h is None else got_h == http, "C08.R10", f"{SEC}:{cname}", f"{cname}.http_security_name = {http!r}", f"HTTP auth definitions are looked for under type {got_h!r}: no Authorization parameter is ever added", f"{SEC}:{cls.lineno}")
         got_p = unparse(vals["parameter_cls"]) if "parameter_cls" in vals else None
         chk.decide(None if got_p is None else got_p == pcls, "C08.R10", f"{SEC}:{cname}", f"{cname}.parameter_cls = {pcls}", f"security parameters are built as {got_p}: the other version's keyword whitelist / `schema` nesting is applied", f"{SEC}:{cls.lineno}")
+    # IDENTITY(parameter) = (name, location): `already defined => skip the security parameter` must compare both
+    pd = P.func(f"{SEC}:BaseSecurityProcessor.process_definitions")
+    scope_fns = [pd] + [r_[1] for c in body_calls(pd) for r_ in [P.resolve_call(pd, c)] if r_ and r_[0] == "func" and getattr(r_[1], "module", None) is pd.module]  # type: ignore[list-item]
+    construct = "a security parameter is skipped only if a parameter with the same NAME AND LOCATION exists"
+    by_both = any(last_attr(c) == "get_parameter" and len(c.args) + len(c.keywords) >= 2 for f in scope_fns for c in body_calls(f))  # type: ignore[arg-type]
+    texts = " ".join(unparse(f.node, 4000) for f in scope_fns)  # type: ignore[union-attr]
+    name_cmp = ".name ==" in texts or "== parameter.name" in texts
+    loc_cmp = ".location ==" in texts or "['in'] ==" in texts
+    skips = any(isinstance(x, ast.Continue) for x in walk_body(pd.node))
+    if by_both or (name_cmp and loc_cmp):
+        chk.ok("C08.R10", pd, construct, "get_parameter(name, location)" if by_both else "name and location compared", pd.loc())
+    elif name_cmp and skips:
+        chk.violation("C08.R10", pd, construct,
+                      "the `already defined` test compares the NAME only: an apiKey expected in the header is dropped when the operation (or an alternative scheme) has a parameter of the same name in the query - the operation is offered without one of its effective inputs, through every kind of lookup",
+                      pd.loc())
+    else:
+        chk.undecided("C08.R10", pd, construct, "the `already defined` test was not recognised", pd.loc())
     mh = P.func(f"{SEC}:make_auth_header")
     d = next((r for r in simple_return_expr(mh) if isinstance(r, ast.Dict)), None)
     kv = {const_str(k): unparse(v) for k, v in zip(d.keys, d.values) if k is not None} if d is not None else {}
